@@ -449,7 +449,16 @@ object_t* load_object (const char *mudlib_filename, const char *pre_text) {
           * We don't care about its actual filename, just the object.
           * Replace the object's name with the requested name and update it in the object hash table.
           */
+          object_t *other;
+
           ob = v->u.ob;
+          /* the name asked for may have been taken meanwhile - compile_object() can load it
+           * itself, or a clone carries it: the table holds one object per name */
+          if ((other = lookup_object_hash (name)) && other != ob)
+            {
+              num_objects_this_thread--;
+              error ("*The name '/%s' for a virtual object is already used by another object.", name);
+            }
           remove_object_hash (ob);
           if (ob->name)
             FREE (ob->name);
@@ -629,10 +638,16 @@ object_t* load_object (const char *mudlib_filename, const char *pre_text) {
  */
 static char *make_new_name (const char *str) {
   static int i = 1;
-  char *p = DXALLOC (strlen (str) + 10, TAG_OBJ_NAME, "make_new_name");
+  char *p = DXALLOC (strlen (str) + 14, TAG_OBJ_NAME, "make_new_name");
 
-  (void) sprintf (p, "%s#%d", str, i);
-  i++;
+  /* a virtual object may have been given a name of this form: two objects must never
+   * carry one name (only one of them could be in the name table) */
+  do
+    {
+      (void) sprintf (p, "%s#%d", str, i);
+      i++;
+    }
+  while (lookup_object_hash (p));
   return p;
 }
 
